@@ -1,0 +1,54 @@
+//! Read-only verification hooks. Compiled only with `--cfg daachorse_verif`.
+//!
+//! Nothing in this module (or in the `verif` submodules of `bytewise` and `charwise`) changes
+//! the behaviour of the crate: the accessors copy the built tables out, or call the crate's own
+//! transition functions for an in-range state, and [`STEPS`] counts the iterations of the
+//! transition loops.
+
+use core::sync::atomic::AtomicU64;
+
+use alloc::vec::Vec;
+
+/// Number of iterations of the goto/fail transition loops executed so far (all automata).
+pub static STEPS: AtomicU64 = AtomicU64::new(0);
+
+/// Copy of one double-array element. `base` and `output_pos` use 0 for `None`.
+#[derive(Clone, Copy, Debug, Eq, PartialEq)]
+pub struct RawState {
+    /// BASE (0 = none).
+    pub base: u32,
+    /// CHECK (label for the byte-wise automaton, parent index for the character-wise one).
+    pub check: u32,
+    /// FAIL.
+    pub fail: u32,
+    /// 1-based position in the output table (0 = none).
+    pub output_pos: u32,
+}
+
+/// Copy of one output record. `parent` uses 0 for `None`.
+#[derive(Clone, Copy, Debug)]
+pub struct RawOutput<V> {
+    /// Value of the pattern.
+    pub value: V,
+    /// Length of the pattern in bytes.
+    pub length: u32,
+    /// 1-based position of the next record of the chain (0 = none).
+    pub parent: u32,
+}
+
+/// Copy of all tables of an automaton.
+#[derive(Clone, Debug)]
+pub struct RawAutomaton<V> {
+    /// Double-array elements.
+    pub states: Vec<RawState>,
+    /// Output table.
+    pub outputs: Vec<RawOutput<V>>,
+    /// Code-mapper table (character-wise only; empty for the byte-wise automaton).
+    pub mapper_table: Vec<u32>,
+    /// Alphabet size of the code mapper (character-wise only; 0 for the byte-wise automaton).
+    pub alphabet_size: u32,
+    /// Match kind as its serialised byte.
+    pub match_kind: u8,
+    /// Reported number of states.
+    pub num_states: u32,
+}
